@@ -11,6 +11,8 @@
                          the packet nor panics
   C11.e classification   current_section answers only sections rrcount_dec has an arm for, each non-Question verdict guarded by
                          `offset >= <start offset of that section>` (sibling agreement between classifier and count helpers)
+  C11.f pointer-free     (the C09.e automaton on delete) the splice of a deletion happens only where the packet is known to hold no
+                         compression pointers: otherwise pointers of the survivors into the moved bytes designate something else
   C11.c termination      = C03.a: advances and rrs_left decrements are paired on every path (rrs_left strictly decreases
                          between re-initialisations, each of which follows a count decrement)
 
@@ -251,6 +253,8 @@ def run(ctx):
         # ---------------------------- C11.a ------------------------------------
         delete_protocol_rule(ctx, facts, cfg, 'C11.a')
         classification_rule(ctx, facts, cfg, 'C11.e')
+        from rules import C09
+        C09.pointer_free_rule(ctx, facts, cfg, rid='C11.f', entries=facts.inst_keys('rr_iterator::TypedIterable::delete'), floor=2)
         # ---------------------------- C11.d ------------------------------------
         from rules import C10
         from analysis.pkt import PacketEvents
